@@ -89,8 +89,8 @@ package tacquito
 //@   also
 //@   ghost f Header
 //@   requires wire.Header(f, data) && valid.Header(f)
-//@   ensures[C01] err == nil
-//@   ensures[C01] h.Version == f.Version && h.Type == f.Type && h.SeqNo == f.SeqNo && h.SessionID == f.SessionID && h.Length == f.Length
+//@   ensures[C01,C02] err == nil
+//@   ensures[C01,C02] h.Version == f.Version && h.Type == f.Type && h.SeqNo == f.SeqNo && h.SessionID == f.SessionID && h.Length == f.Length
 //@   ensures[C01,C02] f.SeqNo != 2 ==> h.Flags == f.Flags
 //@   ensures[C01,C02] f.SeqNo == 2 ==> h.Flags == f.Flags - (f.Flags div 4) mod 2 * 4 + 4
 
@@ -114,7 +114,7 @@ package tacquito
 //@ func (a *AuthenStart) UnmarshalBinary(data []byte) (err error)
 //@   requires a != nil
 //@   modifies *a
-//@   ensures[C04] err == nil ==> valid.AuthenStart(*a) && fits.AuthenStart(*a)
+//@   ensures[C02,C04] err == nil ==> valid.AuthenStart(*a) && fits.AuthenStart(*a)
 //@   ensures[C04] err == nil ==> inside(a.User, data) && inside(a.Port, data) && inside(a.RemAddr, data) && inside(a.Data, data)
 //@   ensures[C04] len(data) < 8 ==> err != nil
 //@   ensures[C19] len(data) < 8 ==> typeOf(err) != *BadSecretErr
@@ -125,7 +125,7 @@ package tacquito
 //@   also
 //@   ghost f AuthenStart
 //@   requires wire.AuthenStart(f, data) && valid.AuthenStart(f) && fits.AuthenStart(f)
-//@   ensures[C01] err == nil && *a == f
+//@   ensures[C01,C02] err == nil && *a == f
 //@   ensures[C19] clean.AuthenStart(data)
 
 //@ func (a *AuthenReply) Validate() (err error)
@@ -144,7 +144,7 @@ package tacquito
 //@ func (a *AuthenReply) UnmarshalBinary(data []byte) (err error)
 //@   requires a != nil
 //@   modifies *a
-//@   ensures[C04] err == nil ==> valid.AuthenReply(*a) && fits.AuthenReply(*a)
+//@   ensures[C02,C04] err == nil ==> valid.AuthenReply(*a) && fits.AuthenReply(*a)
 //@   ensures[C04] err == nil ==> inside(a.ServerMsg, data) && inside(a.Data, data)
 //@   ensures[C04] len(data) < 5 ==> err != nil
 //@   ensures[C19] len(data) < 5 ==> typeOf(err) != *BadSecretErr
@@ -152,7 +152,7 @@ package tacquito
 //@   also
 //@   ghost f AuthenReply
 //@   requires wire.AuthenReply(f, data) && valid.AuthenReply(f) && fits.AuthenReply(f)
-//@   ensures[C01] err == nil && *a == f
+//@   ensures[C01,C02] err == nil && *a == f
 //@   ensures[C19] clean.AuthenReply(data)
 
 //@ func (a *AuthenContinue) Validate() (err error)
@@ -171,7 +171,7 @@ package tacquito
 //@ func (a *AuthenContinue) UnmarshalBinary(data []byte) (err error)
 //@   requires a != nil
 //@   modifies *a
-//@   ensures[C04] err == nil ==> valid.AuthenContinue(*a) && fits.AuthenContinue(*a)
+//@   ensures[C02,C04] err == nil ==> valid.AuthenContinue(*a) && fits.AuthenContinue(*a)
 //@   ensures[C04] err == nil ==> inside(a.UserMessage, data) && inside(a.Data, data)
 //@   ensures[C04] len(data) < 5 ==> err != nil
 //@   ensures[C19] len(data) < 5 ==> typeOf(err) != *BadSecretErr
@@ -182,7 +182,7 @@ package tacquito
 //@   also
 //@   ghost f AuthenContinue
 //@   requires wire.AuthenContinue(f, data) && valid.AuthenContinue(f) && fits.AuthenContinue(f)
-//@   ensures[C01] err == nil && *a == f
+//@   ensures[C01,C02] err == nil && *a == f
 //@   ensures[C19] clean.AuthenContinue(data)
 
 // ---------------------------------------------------------------------------
@@ -205,7 +205,7 @@ package tacquito
 //@ func (a *AcctReply) UnmarshalBinary(data []byte) (err error)
 //@   requires a != nil
 //@   modifies *a
-//@   ensures[C04] err == nil ==> valid.AcctReply(*a) && fits.AcctReply(*a)
+//@   ensures[C02,C04] err == nil ==> valid.AcctReply(*a) && fits.AcctReply(*a)
 //@   ensures[C04] err == nil ==> inside(a.ServerMsg, data) && inside(a.Data, data)
 //@   ensures[C04] len(data) < 5 ==> err != nil
 //@   ensures[C19] len(data) < 5 ==> typeOf(err) != *BadSecretErr
@@ -213,7 +213,7 @@ package tacquito
 //@   also
 //@   ghost f AcctReply
 //@   requires wire.AcctReply(f, data) && valid.AcctReply(f) && fits.AcctReply(f)
-//@   ensures[C01] err == nil && *a == f
+//@   ensures[C01,C02] err == nil && *a == f
 //@   ensures[C19] clean.AcctReply(data)
 
 // ---------------------------------------------------------------------------
@@ -243,10 +243,10 @@ package tacquito
 //@   ghost h Header
 //@   ghost body []byte
 //@   requires wire.Packet(h, body, v) && valid.Header(h) && h.Length == len(body)
-//@   ensures[C01] err == nil && p.Header != nil
-//@   ensures[C01] p.Header.Version == h.Version && p.Header.Type == h.Type && p.Header.SeqNo == h.SeqNo && p.Header.SessionID == h.SessionID && p.Header.Length == h.Length
-//@   ensures[C01] h.SeqNo != 2 ==> p.Header.Flags == h.Flags
-//@   ensures[C01] len(p.Body) == len(body) && (forall i int :: 0 <= i && i < len(body) ==> p.Body[i] == body[i])
+//@   ensures[C01,C02] err == nil && p.Header != nil
+//@   ensures[C01,C02] p.Header.Version == h.Version && p.Header.Type == h.Type && p.Header.SeqNo == h.SeqNo && p.Header.SessionID == h.SessionID && p.Header.Length == h.Length
+//@   ensures[C01,C02] h.SeqNo != 2 ==> p.Header.Flags == h.Flags
+//@   ensures[C01,C02] len(p.Body) == len(body) && (forall i int :: 0 <= i && i < len(body) ==> p.Body[i] == body[i])
 
 // ---------------------------------------------------------------------------
 // authorize.go
@@ -295,7 +295,7 @@ package tacquito
 //@ func (a *AuthorRequest) UnmarshalBinary(data []byte) (err error)
 //@   requires a != nil
 //@   modifies *a
-//@   ensures[C04] err == nil ==> valid.AuthorRequest(*a) && fits.AuthorRequest(*a)
+//@   ensures[C02,C04] err == nil ==> valid.AuthorRequest(*a) && fits.AuthorRequest(*a)
 //@   ensures[C04] err == nil ==> inside(a.User, data) && inside(a.Port, data) && inside(a.RemAddr, data)
 //@        && (forall k int :: 0 <= k && k < len(a.Args) ==> inside(a.Args[k], data))
 //@   ensures[C04] len(data) < 8 ==> err != nil
@@ -304,12 +304,12 @@ package tacquito
 //@   also
 //@   ghost f AuthorRequest
 //@   requires wire.AuthorRequest(f, data) && valid.AuthorRequest(f) && fits.AuthorRequest(f)
-//@   ensures[C01] err == nil
+//@   ensures[C01,C02] err == nil
 //@   ensures[C19] clean.AuthorRequest(data)
-//@   ensures[C01] a.Method == f.Method && a.PrivLvl == f.PrivLvl && a.Type == f.Type && a.Service == f.Service
-//@   ensures[C01] a.User == f.User && a.Port == f.Port && a.RemAddr == f.RemAddr
-//@   ensures[C01] len(a.Args) == len(f.Args) && (forall k int :: 0 <= k && k < len(f.Args) ==> len(a.Args[k]) == len(f.Args[k]))
-//@   ensures[C01] forall k int, i int :: 0 <= k && k < len(f.Args) && 0 <= i && i < len(f.Args[k]) ==> a.Args[k][i] == f.Args[k][i]
+//@   ensures[C01,C02] a.Method == f.Method && a.PrivLvl == f.PrivLvl && a.Type == f.Type && a.Service == f.Service
+//@   ensures[C01,C02] a.User == f.User && a.Port == f.Port && a.RemAddr == f.RemAddr
+//@   ensures[C01,C02] len(a.Args) == len(f.Args) && (forall k int :: 0 <= k && k < len(f.Args) ==> len(a.Args[k]) == len(f.Args[k]))
+//@   ensures[C01,C02] forall k int, i int :: 0 <= k && k < len(f.Args) && 0 <= i && i < len(f.Args[k]) ==> a.Args[k][i] == f.Args[k][i]
 //@   loop 1 invariant 0 <= i && i <= argCnt && len(argLens) == i
 //@   loop 1 invariant buf == data[min(8 + i, len(data)):]
 //@   loop 1 invariant forall j int :: 0 <= j && j < i ==> argLens[j] == (8 + j < len(data) ? data[8 + j] : 0)
@@ -375,7 +375,7 @@ package tacquito
 //@ func (a *AuthorReply) UnmarshalBinary(data []byte) (err error)
 //@   requires a != nil
 //@   modifies *a
-//@   ensures[C04] err == nil ==> valid.AuthorReply(*a) && fits.AuthorReply(*a)
+//@   ensures[C02,C04] err == nil ==> valid.AuthorReply(*a) && fits.AuthorReply(*a)
 //@   ensures[C04] err == nil ==> inside(a.ServerMsg, data) && inside(a.Data, data)
 //@        && (forall k int :: 0 <= k && k < len(a.Args) ==> inside(a.Args[k], data))
 //@   ensures[C04] len(data) < 6 ==> err != nil
@@ -384,11 +384,11 @@ package tacquito
 //@   also
 //@   ghost f AuthorReply
 //@   requires wire.AuthorReply(f, data) && valid.AuthorReply(f) && fits.AuthorReply(f)
-//@   ensures[C01] err == nil
+//@   ensures[C01,C02] err == nil
 //@   ensures[C19] clean.AuthorReply(data)
-//@   ensures[C01] a.Status == f.Status && a.ServerMsg == f.ServerMsg && a.Data == f.Data
-//@   ensures[C01] len(a.Args) == len(f.Args) && (forall k int :: 0 <= k && k < len(f.Args) ==> len(a.Args[k]) == len(f.Args[k]))
-//@   ensures[C01] forall k int, i int :: 0 <= k && k < len(f.Args) && 0 <= i && i < len(f.Args[k]) ==> a.Args[k][i] == f.Args[k][i]
+//@   ensures[C01,C02] a.Status == f.Status && a.ServerMsg == f.ServerMsg && a.Data == f.Data
+//@   ensures[C01,C02] len(a.Args) == len(f.Args) && (forall k int :: 0 <= k && k < len(f.Args) ==> len(a.Args[k]) == len(f.Args[k]))
+//@   ensures[C01,C02] forall k int, i int :: 0 <= k && k < len(f.Args) && 0 <= i && i < len(f.Args[k]) ==> a.Args[k][i] == f.Args[k][i]
 //@   loop 1 invariant 0 <= i && i <= argCnt && len(argLens) == i
 //@   loop 1 invariant buf == data[min(6 + i, len(data)):]
 //@   loop 1 invariant forall j int :: 0 <= j && j < i ==> argLens[j] == (6 + j < len(data) ? data[6 + j] : 0)
@@ -456,7 +456,7 @@ package tacquito
 //@ func (a *AcctRequest) UnmarshalBinary(data []byte) (err error)
 //@   requires a != nil
 //@   modifies *a
-//@   ensures[C04] err == nil ==> valid.AcctRequest(*a) && fits.AcctRequest(*a)
+//@   ensures[C02,C04] err == nil ==> valid.AcctRequest(*a) && fits.AcctRequest(*a)
 //@   ensures[C04] err == nil ==> inside(a.User, data) && inside(a.Port, data) && inside(a.RemAddr, data)
 //@        && (forall k int :: 0 <= k && k < len(a.Args) ==> inside(a.Args[k], data))
 //@   ensures[C04] len(data) < 9 ==> err != nil
@@ -465,12 +465,12 @@ package tacquito
 //@   also
 //@   ghost f AcctRequest
 //@   requires wire.AcctRequest(f, data) && valid.AcctRequest(f) && fits.AcctRequest(f)
-//@   ensures[C01] err == nil
+//@   ensures[C01,C02] err == nil
 //@   ensures[C19] clean.AcctRequest(data)
-//@   ensures[C01] a.Flags == f.Flags && a.Method == f.Method && a.PrivLvl == f.PrivLvl && a.Type == f.Type && a.Service == f.Service
-//@   ensures[C01] a.User == f.User && a.Port == f.Port && a.RemAddr == f.RemAddr
-//@   ensures[C01] len(a.Args) == len(f.Args) && (forall k int :: 0 <= k && k < len(f.Args) ==> len(a.Args[k]) == len(f.Args[k]))
-//@   ensures[C01] forall k int, i int :: 0 <= k && k < len(f.Args) && 0 <= i && i < len(f.Args[k]) ==> a.Args[k][i] == f.Args[k][i]
+//@   ensures[C01,C02] a.Flags == f.Flags && a.Method == f.Method && a.PrivLvl == f.PrivLvl && a.Type == f.Type && a.Service == f.Service
+//@   ensures[C01,C02] a.User == f.User && a.Port == f.Port && a.RemAddr == f.RemAddr
+//@   ensures[C01,C02] len(a.Args) == len(f.Args) && (forall k int :: 0 <= k && k < len(f.Args) ==> len(a.Args[k]) == len(f.Args[k]))
+//@   ensures[C01,C02] forall k int, i int :: 0 <= k && k < len(f.Args) && 0 <= i && i < len(f.Args[k]) ==> a.Args[k][i] == f.Args[k][i]
 //@   loop 1 invariant 0 <= i && i <= argCnt && len(argLens) == i
 //@   loop 1 invariant buf == data[min(9 + i, len(data)):]
 //@   loop 1 invariant forall j int :: 0 <= j && j < i ==> argLens[j] == (9 + j < len(data) ? data[9 + j] : 0)
@@ -519,6 +519,13 @@ package tacquito
 //@   loop 2 invariant -1 <= rangeindex && rangeindex < len(p.Body)
 //@   loop 2 invariant forall j int :: {p.Body[j]} 0 <= j && j <= rangeindex ==> p.Body[j] == xor8(old(p.Body[j]), padAt(*p.Header, secret, j))
 //@   loop 2 invariant forall j int :: {p.Body[j]} rangeindex < j && j < len(p.Body) ==> p.Body[j] == old(p.Body[j])
+
+// The connection wrapper is keyed by exactly the secret it is given (C03: the pad is computed
+// from the configured secret, octet for octet).
+//@ func newCrypter(secret []byte, c net.Conn, proxy bool) (res *crypter)
+//@   ensures res != nil && fresh(res)
+//@   ensures res.Conn == c && res.proxy == proxy && res.Reader != nil
+//@   ensures[C03] res.secret == secret
 
 //@ func (c *crypter) write(p *Packet) (n int, err error)
 //@   requires c != nil && c.Conn != nil
@@ -669,12 +676,17 @@ package tacquito
 // server.go
 // ---------------------------------------------------------------------------
 
+// ghost.rdFailed is an auxiliary variable of handle: 1 after a failed crypter.read. The loop
+// never goes round again after a failed read (C17: a connection whose read hits the deadline,
+// or fails in any other way, is closed — not re-armed and read again).
 //@ func (s *Server) handle(ctx context.Context, c *crypter, h Handler)
+//@   ghostset rdFailed 0
+//@   after[C17] crypter.read : ghost.rdFailed = (ret1 != nil ? 1 : 0)
 //@   requires s != nil && s.loggerProvider != nil && ctx != nil && h != nil
 //@   requires c != nil && c.Conn != nil && c.Reader != nil && !c.proxy
 //@   taints[C18] c.secret 4
 //@   requires[C05] ghost.sync == 1
-//@   modifies ghost.inPos, ghost.nwrites, ghost.written, ghost.md5acc, ghost.gauge, ghost.armed, ghost.dead, ghost.reads, ghost.handled, ghost.replies, ghost.closed, ghost.sync, ghost.hcalls, ghost.authorStatus, ghost.authenPass, ghost.acctStatus, ghost.sinkWrites, ghost.sinkAtReply, ghost.scopeArg, ghost.cmpOK, ghost.cmpCalls, ghost.lookups, ghost.lookedUp
+//@   modifies ghost.inPos, ghost.nwrites, ghost.written, ghost.md5acc, ghost.gauge, ghost.armed, ghost.dead, ghost.reads, ghost.handled, ghost.replies, ghost.closed, ghost.sync, ghost.hcalls, ghost.authorStatus, ghost.authenPass, ghost.acctStatus, ghost.sinkWrites, ghost.sinkAtReply, ghost.scopeArg, ghost.cmpOK, ghost.cmpCalls, ghost.lookups, ghost.lookedUp, ghost.rdFailed
 //@   ensures[C07,C17] ghost.closed == old(ghost.closed) + 1
 //@   ensures[C07] ghost.handled - old(ghost.handled) <= ghost.reads - old(ghost.reads)
 //@   ensures[C07] ghost.replies - old(ghost.replies) == ghost.handled - old(ghost.handled)
@@ -682,6 +694,7 @@ package tacquito
 //@   loop 1 invariant wfSessions(sessionProvider) && fresh(sessionProvider)
 //@   loop 1 invariant[C08,C20] allLive(sessionProvider)
 //@   loop 1 invariant[C07] ghost.closed == old(ghost.closed)
+//@   loop 1 invariant[C17] ghost.rdFailed == 0
 //@   loop 1 invariant[C05] ghost.sync == 1
 //@   loop 1 invariant[C07] ghost.reads - old(ghost.reads) == ghost.handled - old(ghost.handled)
 //@   loop 1 invariant[C07] ghost.replies - old(ghost.replies) == ghost.handled - old(ghost.handled)
@@ -704,7 +717,7 @@ package tacquito
 //@   ensures[C18] true
 //@   requires s != nil && s.loggerProvider != nil && s.SecretProvider != nil && ctx != nil && conn != nil && !s.proxy
 //@   requires[C05] ghost.sync == 1
-//@   modifies s.waitGroup.active, ghost.inPos, ghost.nwrites, ghost.written, ghost.md5acc, ghost.gauge, ghost.armed, ghost.dead, ghost.reads, ghost.handled, ghost.replies, ghost.closed, ghost.wgDones, ghost.sync, ghost.hcalls, ghost.authorStatus, ghost.authenPass, ghost.acctStatus, ghost.sinkWrites, ghost.sinkAtReply, ghost.scopeArg, ghost.cmpOK, ghost.cmpCalls, ghost.lookups, ghost.lookedUp
+//@   modifies s.waitGroup.active, ghost.inPos, ghost.nwrites, ghost.written, ghost.md5acc, ghost.gauge, ghost.armed, ghost.dead, ghost.reads, ghost.handled, ghost.replies, ghost.closed, ghost.wgDones, ghost.sync, ghost.hcalls, ghost.authorStatus, ghost.authenPass, ghost.acctStatus, ghost.sinkWrites, ghost.sinkAtReply, ghost.scopeArg, ghost.cmpOK, ghost.cmpCalls, ghost.lookups, ghost.lookedUp, ghost.rdFailed
 //@   ensures[C17,C20] ghost.wgDones == old(ghost.wgDones) + 1
 //@   ensures[C07,C13,C17] ghost.closed == old(ghost.closed) + 1
 //@   ensures[C20] ghost.gauge == upd(old(ghost.gauge), waitgroupActive, old(ghost.gauge)[waitgroupActive] - 1)
